@@ -13,17 +13,25 @@ use std::panic::{catch_unwind, AssertUnwindSafe};
 // ---------------------------------------------------------------- counting allocator (suite S7)
 struct Counting;
 static LIVE: std::sync::atomic::AtomicIsize = std::sync::atomic::AtomicIsize::new(0);
+// counting is switched on by the single-threaded `leak` mode only (a shared counter would serialise the threaded modes)
+static COUNTING: std::sync::atomic::AtomicBool = std::sync::atomic::AtomicBool::new(false);
 unsafe impl std::alloc::GlobalAlloc for Counting {
     unsafe fn alloc(&self, l: std::alloc::Layout) -> *mut u8 {
-        LIVE.fetch_add(l.size() as isize, std::sync::atomic::Ordering::Relaxed);
+        if COUNTING.load(std::sync::atomic::Ordering::Relaxed) {
+            LIVE.fetch_add(l.size() as isize, std::sync::atomic::Ordering::Relaxed);
+        }
         std::alloc::System.alloc(l)
     }
     unsafe fn dealloc(&self, p: *mut u8, l: std::alloc::Layout) {
-        LIVE.fetch_sub(l.size() as isize, std::sync::atomic::Ordering::Relaxed);
+        if COUNTING.load(std::sync::atomic::Ordering::Relaxed) {
+            LIVE.fetch_sub(l.size() as isize, std::sync::atomic::Ordering::Relaxed);
+        }
         std::alloc::System.dealloc(p, l)
     }
     unsafe fn realloc(&self, p: *mut u8, l: std::alloc::Layout, n: usize) -> *mut u8 {
-        LIVE.fetch_add(n as isize - l.size() as isize, std::sync::atomic::Ordering::Relaxed);
+        if COUNTING.load(std::sync::atomic::Ordering::Relaxed) {
+            LIVE.fetch_add(n as isize - l.size() as isize, std::sync::atomic::Ordering::Relaxed);
+        }
         std::alloc::System.realloc(p, l, n)
     }
 }
@@ -534,7 +542,10 @@ fn main() {
             cmd_deep(a[2].parse().unwrap(), a[3].parse().unwrap(), a[4].parse().unwrap())
         }
         Some("census") => cmd_census(a[2].parse().unwrap(), a[3] == "1", a[4] == "1"),
-        Some("leak") => cmd_lines(&a[2], leak_case),
+        Some("leak") => {
+            COUNTING.store(true, std::sync::atomic::Ordering::Relaxed);
+            cmd_lines(&a[2], leak_case)
+        }
         Some("adapt") => cmd_lines(&a[2], adapt_case),
         Some("hist") => cmd_lines(&a[2], hist_case),
         Some("words") => cmd_words(a[2].parse().unwrap(), a[3].parse().unwrap()),
